@@ -240,6 +240,7 @@ structure St where
   drops : List Nat := []       -- value ids dropped by the queue (overwritten / in place / teardown)
   torn : Bool := false         -- a clone/view body saw the slot change (C04)
   taintAdd : Bool := false     -- F1 trigger happened
+  taintNoStream : Bool := false -- the last stream was removed (F12 region: sends may still be in flight)
   live : Nat := 2              -- live handles
   sused : Nat → Bool := fun s => s == 0   -- stream ids handed out
   est : Nat → Bool := fun s => s == 0     -- streams that have been published in a reader group
@@ -768,7 +769,7 @@ def stepRun (σ0 : St) (t : Nat) (inp : Nat) : Obs × St :=
       let okk := σ0.cur = cur
       let o := mkObs σ0 t .cas .readers .sc .sc (a := cur) (b := ng) (res := σ0.cur) (ok := okk)
       if okk then
-        let σ2 := { σ with cur := ng }
+        let σ2 := { σ with cur := ng, taintNoStream := σ0.taintNoStream || (σ0.groups ng).length == 0 }
         if (σ0.groups cur).length = 1 then (o, σ2.gotoF t (.rr3 cur) [.sc])
         else (o, σ2.gotoF t (.f1 .rmFree1 (.grp cur)) [.sc])
       else
